@@ -56,14 +56,14 @@ MORE = {
 }
 
 MORE['C18'] = dict(
-    technique='Lean 4 theorems about the node model (every unsuccessful end of message handling, answer handling and approval leaves the node state the same value; the proposal expansion and signature verification never panic, for every input) + differential nodediff/sszdiff + fault injection on real airgapped machines',
-    text=("Proof, partial. lean/Dc4bcVerif/Props/C18.lean: reject_is_noop (for EVERY node state and message: if processMessage does not end with success, rounds, pool, tombstones and "
-          "signature store are the value they were), top_reject_is_noop (ProcessMessage as a whole, with its one explicit exception: the message was accepted and an identical operation is "
-          "already pending), exec_refused_is_noop, approve_refused_is_noop, verify_never_panics, lookup_never_panics, expansion_never_panics (TasksToMessages ends with a list or an error for every "
-          "task list, reversed / negative / astronomically large ranges included), panic_only_from_callbacks (in the model a crash of message handling can only come from an FSM callback "
-          "dereferencing a missing payload part). Not proved: that reachable rounds always have the parts the callbacks dereference (checked by nodediff/fsmdiff only), and anything about the "
-          "airgapped handlers (kyber, ECIES), which are covered by fault injection on the real machine: airdiff. Tie: nodediff (every mutation kind incl. junk rounds, unknown events, "
-          "garbage, negative ids, replays, cancelled-and-restarted signing rounds; byte-exact state comparison after every rejected message), sszdiff, airdiff."),
+    technique='Lean 4 theorems about the FSM and node models (invariant by induction over every event sequence: no callback dereferences a missing payload part; every unsuccessful end of message handling, answer handling and approval leaves the node state the same value; the proposal expansion and signature verification never panic) + differential nodediff/sszdiff + fault injection on real airgapped machines',
+    text=("Proof, partial. lean/Dc4bcVerif/Props/C18Fsm.lean: never_panics (for EVERY finite event sequence from a created round and every next event and argument, FSMInstance.Do ends with ok or an error: parts_invariant carries the C05 phase invariant "
+          "together with the presence of the invitation, key-generation and signing parts through every run; no_panic_of_inv). Props/C18Node.lean: node_never_panics_run (from an empty state database, after ANY sequence of messages - genuine, forged, junk, duplicated, "
+          "any number of rounds - handling any further message ends with ok or a rejection; nodeOK_step: every dump the node stores restores to an instance satisfying the invariants). Props/C18.lean: reject_is_noop, top_reject_is_noop (every unsuccessful end leaves rounds, "
+          "pool, tombstones and signature store the value they were), exec_refused_is_noop, approve_refused_is_noop, verify_never_panics, expansion_never_panics (TasksToMessages ends with a list or an error for every task list, reversed / negative / astronomically large ranges included), "
+          "panic_only_from_callbacks. In the models a Go panic is the explicit outcome `panic`; that the models place it exactly where the Go code can panic is tied by fsmdiff/nodediff (every panic of the real code under recover() is compared). Not modelled: the re-initialisation "
+          "handler, the answer path's write of the public polynomial into a round without key-generation data, and the airgapped handlers (kyber, ECIES), which are covered by fault injection on the real machine: airdiff. Tie: nodediff (every mutation kind incl. junk rounds, "
+          "unknown events, garbage, negative ids, replays, cancelled-and-restarted signing rounds; byte-exact state comparison after every rejected message), sszdiff, airdiff."),
     ref='7 C18', note=NODE_NOTE + " Airgapped machine: real code under monitors only; no model of the handlers.")
 
 MORE['C07'] = dict(
